@@ -67,8 +67,18 @@ def make_texts(rng):
     if leaves:
         leaves[0].scen["alt"] = {"effort": leaves[0].effort * 2}
     b.extra = REPORT
+    # C: the same tasks (same full ids) as B, but the scenario-specific value is written with the prefix of the PARENT scenario
+    # and reaches the nested one by inheritance: whatever a builder remembers about "B's task x has a value of its own in
+    # scenario alt" must not leak into another project
+    c = gen.clone(b)
+    cl = [t for t in c.tasks if not t.kids and t.effort]
+    if cl:
+        cl[0].scen = {"plan": {"effort": cl[0].effort * 3}}
+        if len(cl) > 1:
+            cl[1].scen = {"alt": {"effort": max(c.G, cl[1].effort // 2 // c.G * c.G)}}
+    c.extra = REPORT.replace('rep "rep"', 'repc "repc"') + 'taskreport repalt "repalt" {\n  formats csv\n  columns id, start, end, effort\n  scenarios alt\n}\n'
     x = a.render().replace("task ", "tsak ", 1)
-    return {"A": a.render(), "B": b.render(), "X": x}
+    return {"A": a.render(), "B": b.render(), "C": c.render(), "X": x}
 
 
 def enumerate_histories(cfg):
@@ -123,8 +133,8 @@ def run_session(scr, texts, histories, share_parser=True, hashseed="0", pure=Fal
 
 def check(prop, tier, replay=None):
     run = Run("C12", tier)
-    run.cov["rule"] = ("every call history of Session.tla up to length 4 (quick: a seeded sample; thorough: all, plus length 5 sample) over two accepted "
-                       "texts (nested DAG with dated containers; limits + two scenarios) and one rejected text; calls: parse, parse(schedule=False), "
+    run.cov["rule"] = ("every call history of Session.tla up to length 4 (quick: a seeded sample; thorough: all, plus length 5 sample) over three accepted "
+                       "texts (nested DAG with dated containers and alternatives; limits + two scenarios; the same tasks with the scenario value written on the parent scenario) and one rejected text; calls: parse, parse(schedule=False), "
                        "project.schedule() (also repeated), report generation (JSON + CSV), the CLI path run_scriptplan; all histories of a runner "
                        "share one interpreter; repeated under PYTHONHASHSEED 0 / 1 / 12345 and with the extensions blocked; every observation "
                        "(dates of all tasks in all scenarios, report bytes, generated files) must equal the fresh-process observation of the same text; "
@@ -145,16 +155,17 @@ def check(prop, tier, replay=None):
     if replay:
         d = json.load(open(replay))
         texts, hs = d["texts"], [d["history"]]
-    solo_h = [[["parse", "A"]], [["parse", "B"]], [["parse_only", "A"]], [["parse_only", "B"]], [["parse", "A"], ["report", "A"]],
-              [["parse", "B"], ["report", "B"]], [["cli", "A"]], [["cli", "B"]], [["cli", "X"]], [["parse", "X"]]]
+    solo_h = [[["cli", "X"]], [["parse", "X"]]]
+    for x in ("A", "B", "C"):
+        solo_h += [[["parse", x]], [["parse_only", x]], [["parse", x], ["report", x]], [["cli", x]]]
     with scratch_build() as scr:
         # fresh-process observations: one process per solo history
         solo = {}
         for h in solo_h:
             o = run_session(scr, texts, [h], nproc=1)[0]
             solo[(h[-1][0], h[-1][1])] = o[-1]
-        if solo[("parse", "X")]["err"] is not True or solo[("parse", "A")]["err"] or solo[("parse", "B")]["err"]:
-            raise MachineryError("session texts: A/B must be accepted and X rejected")
+        if solo[("parse", "X")]["err"] is not True or solo[("parse", "A")]["err"] or solo[("parse", "B")]["err"] or solo[("parse", "C")]["err"]:
+            raise MachineryError("session texts: A/B/C must be accepted and X rejected")
         configs = [("share", True, "0", False)]
         if tier == "quick":
             configs += [("seed1", True, "1", False), ("pure", True, "0", True)]
